@@ -363,6 +363,8 @@ class PauliTerm:
         return result
 
     def __truediv__(self, other: complex) -> "PauliTerm":
+        if isinstance(other, Number) and other == 0:
+            raise ZeroDivisionError("division of a Pauli operator by zero")
         result = self * (1.0 / other)
         assert isinstance(result, PauliTerm)
         return result
@@ -521,6 +523,8 @@ class PauliSum:
         return PauliSum(new_terms).simplify()
 
     def __truediv__(self, other: complex) -> "PauliSum":
+        if isinstance(other, Number) and other == 0:
+            raise ZeroDivisionError("division of a Pauli operator by zero")
         return self * (1.0 / other)
 
     def __pow__(self, power: int) -> "PauliSum":
